@@ -179,6 +179,10 @@ func (e *ExecutionConfig) setInitialRelayOptions(_ context.Context,
 	fallbackGasLimit uint64,
 ) {
 	for address, baseRelayConfig := range e.Relays {
+		if baseRelayConfig == nil {
+			// A null entry in the configuration is a relay without specific values.
+			baseRelayConfig = &BaseRelayConfig{}
+		}
 		configRelay := &beaconblockproposer.RelayConfig{
 			Address: address,
 		}
@@ -287,6 +291,10 @@ func (e *ExecutionConfig) setProposerConfigOptions(_ context.Context,
 	// Update existing relays.
 	for _, configRelay := range config.Relays {
 		proposerRelayConfig, exists := proposerConfig.Relays[configRelay.Address]
+		if exists && proposerRelayConfig == nil {
+			// A null entry in the configuration is a relay without specific values.
+			proposerRelayConfig = &ProposerRelayConfig{}
+		}
 		if exists {
 			if !proposerRelayConfig.Disabled {
 				updateRelayConfig(configRelay, proposerRelayConfig)
@@ -301,6 +309,10 @@ func (e *ExecutionConfig) setProposerConfigOptions(_ context.Context,
 	// Add new relays.
 	for address, proposerRelayConfig := range proposerConfig.Relays {
 		if _, alreadyUpdated := updated[address]; !alreadyUpdated {
+			if proposerRelayConfig == nil {
+				// A null entry in the configuration is a relay without specific values.
+				proposerRelayConfig = &ProposerRelayConfig{}
+			}
 			if proposerRelayConfig.Disabled {
 				// A disabled relay is never used, whether or not it was inherited.
 				continue
